@@ -55,8 +55,18 @@ func (m *c17member) HandleMessage(from gen.PID, msg any) error {
 	if b, ok := msg.(c17busy); ok {
 		time.Sleep(b.d)
 	}
+	if g, ok := msg.(c17gate); ok {
+		close(g.entered)
+		select {
+		case <-g.gate:
+		case <-time.After(10 * time.Second):
+		}
+	}
 	return nil
 }
+
+// c17gate keeps a member inside a callback until the gate opens
+type c17gate struct{ entered, gate chan struct{} }
 
 type c17world struct {
 	mu        sync.Mutex
@@ -133,6 +143,8 @@ func runC17(c *Ctx) {
 	c17witnessD6(c, k)
 	c17depends(c, k)
 	c17failedThenStart(c, k)
+	c17secondDeath(c, k)
+	c17unloadWhileStopping(c, k)
 	n := c.N(80, 3000)
 	for it := 0; it < n; it++ {
 		w := &c17world{name: k.NextName("c17app"), n: 1 + c.Rng.Intn(4), failAt: -1}
@@ -732,7 +744,7 @@ func c17failedThenStart(c *Ctx, k *K4) {
 		w.mu.Lock()
 		ns, nt := len(w.starts), len(w.terms)
 		w.mu.Unlock()
-		rp := map[string]interface{}{"members": w.n, "failing_member": failedAt, "mode": string(mode), "busy_after_init_us": w.busy.Microseconds(),
+		rp := map[string]interface{}{"members": w.n, "failing_member": failedAt, "mode": fmt.Sprint(mode), "busy_after_init_us": w.busy.Microseconds(),
 			"history": "ApplicationStart (member init fails) ; ApplicationStart"}
 		switch {
 		case e1 == nil:
@@ -752,6 +764,160 @@ func c17failedThenStart(c *Ctx, k *K4) {
 			ai, err := k.Node.ApplicationInfo(w.name)
 			return err != nil || ai.State == gen.ApplicationStateLoaded
 		})
+		k.Node.ApplicationUnload(w.name)
+	}
+}
+
+func c17memberPids(k *K4, w *c17world) []gen.PID {
+	ai, err := k.Node.ApplicationInfo(w.name)
+	if err != nil {
+		return nil
+	}
+	return append([]gen.PID(nil), ai.Group...)
+}
+
+// c17secondDeath: "terminate callback invoked exactly once with the causing reason". A Transient or Permanent
+// application stops because one member terminates; while it is stopping, another member — busy in a callback, so it has
+// not seen the shutdown request yet — is killed (an abnormal termination of its own). The reason handed to Terminate is
+// the one that made the application stop, not the later one.
+func c17secondDeath(c *Ctx, k *K4) {
+	r := c.R
+	rounds := c.N(6, 120)
+	for it := 0; it < rounds; it++ {
+		w := &c17world{name: k.NextName("c17sd"), n: 3 + c.Rng.Intn(2), failAt: -1, unnamed: true}
+		if _, err := k.Node.ApplicationLoad(&c17app{w: w}); err != nil {
+			r.Disagree("c17.load", err.Error(), nil)
+			return
+		}
+		permanent := c.Rng.Bool()
+		var e error
+		if permanent {
+			e = k.Node.ApplicationStartPermanent(w.name, gen.ApplicationOptions{})
+		} else {
+			e = k.Node.ApplicationStartTransient(w.name, gen.ApplicationOptions{})
+		}
+		if e != nil {
+			r.Disagree("c17.start", e.Error(), nil)
+			return
+		}
+		pids := c17memberPids(k, w)
+		if len(pids) != w.n {
+			r.Count("c17.second-death-inconclusive")
+			k.Node.ApplicationStopForce(w.name)
+			continue
+		}
+		first, second := pids[0], pids[1+c.Rng.Intn(len(pids)-1)]
+		g := c17gate{make(chan struct{}), make(chan struct{})}
+		k.Node.Send(second, g)
+		select {
+		case <-g.entered:
+		case <-time.After(5 * time.Second):
+			close(g.gate)
+			r.Count("c17.second-death-inconclusive")
+			k.Node.ApplicationStopForce(w.name)
+			continue
+		}
+		cause := errors.New("crash7001")
+		k.Node.Send(first, c17die{cause})
+		stopping := waitUntil(5*time.Second, func() bool {
+			ai, err := k.Node.ApplicationInfo(w.name)
+			return err == nil && ai.State == gen.ApplicationStateStopping
+		})
+		// the busy member dies on its own account (killed) before it has handled the shutdown request
+		k.Node.Kill(second)
+		close(g.gate)
+		waitUntil(8*time.Second, func() bool {
+			ai, err := k.Node.ApplicationInfo(w.name)
+			return err == nil && ai.State == gen.ApplicationStateLoaded
+		})
+		w.mu.Lock()
+		terms := append([]error(nil), w.terms...)
+		w.mu.Unlock()
+		mode := map[bool]string{true: "permanent", false: "transient"}[permanent]
+		r.Case(fmt.Sprintf("second-death/%s/%d/%v", mode, w.n, second.ID-first.ID), stopping)
+		r.Count("c17.second-death")
+		hist := fmt.Sprintf("%s application with %d members: member 0 terminates with %q; while the application is stopping a busy member is killed", mode, w.n, cause.Error())
+		rp := map[string]interface{}{"history": hist}
+		switch {
+		case !stopping:
+			r.Count("c17.second-death-inconclusive")
+		case len(terms) != 1:
+			r.Violation("C17/terminate-callback-count", fmt.Sprintf("%s: Terminate ran %d times", hist, len(terms)), rp)
+		case terms[0] == nil || terms[0].Error() != cause.Error():
+			r.Violation("C17/terminate-reason-not-the-cause", fmt.Sprintf("%s: Terminate received %q, the application stopped because of %q", hist, c17reasonName(terms[0]), cause.Error()), rp)
+		}
+		k.Node.ApplicationStopForce(w.name)
+		waitUntil(2*time.Second, func() bool { ai, _ := k.Node.ApplicationInfo(w.name); return ai.State == gen.ApplicationStateLoaded })
+		k.Node.ApplicationUnload(w.name)
+	}
+}
+
+// c17unloadWhileStopping: an application that is still stopping (a member is busy, the stop request timed out) is not
+// unloaded: ApplicationUnload refuses, the last member's termination still ends the run (Terminate once, state loaded),
+// and only then can it be unloaded or started again.
+func c17unloadWhileStopping(c *Ctx, k *K4) {
+	r := c.R
+	rounds := c.N(5, 100)
+	for it := 0; it < rounds; it++ {
+		w := &c17world{name: k.NextName("c17us"), n: 2 + c.Rng.Intn(3), failAt: -1, unnamed: true}
+		if _, err := k.Node.ApplicationLoad(&c17app{w: w}); err != nil {
+			r.Disagree("c17.load", err.Error(), nil)
+			return
+		}
+		modes := []func(gen.Atom, gen.ApplicationOptions) error{k.Node.ApplicationStartTemporary, k.Node.ApplicationStartTransient, k.Node.ApplicationStartPermanent}
+		mi := c.Rng.Intn(3)
+		if e := modes[mi](w.name, gen.ApplicationOptions{}); e != nil {
+			r.Disagree("c17.start", e.Error(), nil)
+			return
+		}
+		pids := c17memberPids(k, w)
+		if len(pids) != w.n {
+			r.Count("c17.unload-inconclusive")
+			k.Node.ApplicationStopForce(w.name)
+			continue
+		}
+		busy := pids[c.Rng.Intn(len(pids))]
+		g := c17gate{make(chan struct{}), make(chan struct{})}
+		k.Node.Send(busy, g)
+		select {
+		case <-g.entered:
+		case <-time.After(5 * time.Second):
+			close(g.gate)
+			r.Count("c17.unload-inconclusive")
+			k.Node.ApplicationStopForce(w.name)
+			continue
+		}
+		eStop := k.Node.ApplicationStopWithTimeout(w.name, 30*time.Millisecond)
+		ai, _ := k.Node.ApplicationInfo(w.name)
+		eUnload := k.Node.ApplicationUnload(w.name)
+		close(g.gate)
+		hist := fmt.Sprintf("application with %d members (mode %d), one member busy: ApplicationStopWithTimeout(30ms) -> %v, state %s; ApplicationUnload -> %v; then the busy member finishes",
+			w.n, mi, eStop, ai.State, eUnload)
+		rp := map[string]interface{}{"history": hist}
+		r.Case(fmt.Sprintf("unload-while-stopping/%d/%d", w.n, mi), ai.State == gen.ApplicationStateStopping)
+		r.Count("c17.unload-while-stopping")
+		if ai.State != gen.ApplicationStateStopping {
+			r.Count("c17.unload-inconclusive")
+		} else if eUnload == nil {
+			r.Violation("C17/unload-while-stopping", hist+": the unload succeeded while members were still running", rp)
+		}
+		// the run ends when the last member is gone
+		ended := waitUntil(8*time.Second, func() bool {
+			a2, err := k.Node.ApplicationInfo(w.name)
+			return err == nil && a2.State == gen.ApplicationStateLoaded
+		})
+		w.mu.Lock()
+		nt := len(w.terms)
+		w.mu.Unlock()
+		if ai.State == gen.ApplicationStateStopping && (!ended || nt != 1) {
+			a2, e2 := k.Node.ApplicationInfo(w.name)
+			r.Violation("C17/stop-never-completes", fmt.Sprintf("%s: 8 s later the application is %s (%v), Terminate ran %d time(s)", hist, a2.State, e2, nt), rp)
+		}
+		for _, p := range pids {
+			k.Node.Kill(p)
+		}
+		k.Node.ApplicationStopForce(w.name)
+		waitUntil(2*time.Second, func() bool { a2, err := k.Node.ApplicationInfo(w.name); return err != nil || a2.State == gen.ApplicationStateLoaded })
 		k.Node.ApplicationUnload(w.name)
 	}
 }
